@@ -1,16 +1,14 @@
-import SJ.Spec.Ieee32
+import SJ.Spec.Ieee
 import Mathlib.Tactic.Ring
 import Mathlib.Tactic.Linarith
 /-!
-# Format-generic lemmas about `Spec.Ieee32.rne` / `magOfBits` / `roundMag`
+# Correctness of the computable rounding `Spec.Ieee.roundNE64` against `IsNearestEven64`
 
-COPIED from the C08 branch (`SJ/Proofs/Ieee.lean` at 5b8c1a1, namespace `SJ.Proofs.Ieee`) with the
-namespaces renamed, because `Spec.Ieee32`'s generic core is verbatim C08's. After the merge this file can
-be replaced by `export`s of the originals. Layers: `rne` (nearest natural, ties to even) → `roundMag`
-(format-generic, on naturals): nearest, ties-to-even, value-invariance, exactness, overflow threshold.
+Layers: `rne` (nearest natural, ties to even) → `roundMag` (format-generic, on naturals) →
+`roundNE64`/`roundNE32` on bit patterns.
 -/
-namespace SJ.Proofs.LexIeee
-open SJ.Spec.Ieee32
+namespace SJ.Proofs.Ieee
+open SJ.Spec.Ieee
 
 /-- `|x − y|` on naturals -/
 def adiff (x y : Nat) : Nat := (x - y) + (y - x)
@@ -569,4 +567,4 @@ theorem roundMag_upper (F : Fmt) (a b : Nat) (hb : 0 < b) :
       _ ≤ 2 * P * a + a := by omega
       _ ≤ (2 * P + 1) * a + P * b := by omega
 
-end SJ.Proofs.LexIeee
+end SJ.Proofs.Ieee
